@@ -304,15 +304,26 @@ def annotate(s, run, want_dec=False):
         return evs, problems
     es = pk["entryStores"][0]
     evs.append({"ev": "Scn", "scn": sid, "sortKeys": s["schema"].get("sort") or []})
+    many = []
     for j, e in enumerate(s["entries"]):
         vals = {}
         for n, v in e["values"].items():
             if "r" in v:
                 v = {"u": handles[v["r"]] if handles and v["r"] < len(handles) else 0}
             vals[n] = enc(v)
-        evs.append({"ev": "Entry", "scn": sid, "j": j, "variant": e.get("variant") or "", "values": vals})
+        if len(s["entries"]) > 200:
+            many.append({"variant": e.get("variant") or "", "values": vals})
+        else:
+            evs.append({"ev": "Entry", "scn": sid, "j": j, "variant": e.get("variant") or "", "values": vals})
+    if many:
+        evs.append({"ev": "Entries", "scn": sid, "entries": many})
     evs.append({"ev": "Finalize", "scn": sid})
-    evs.append({"ev": "Handles", "scn": sid, "pos": handles or []})
+    hp = handles or []
+    inv = [0] * len(hp)
+    for j, p_ in enumerate(hp):
+        if 0 <= p_ < len(inv):
+            inv[p_] = j + 1
+    evs.append({"ev": "Handles", "scn": sid, "pos": hp, "inv": inv})
     evs.append(layout_event(es, sid))
     decl = {ix["name"]: ix for ix in s["indexes"]}
     for e in hv:
